@@ -46,7 +46,7 @@ func init() {
 				return
 			}
 			var canVar, errVar types.Object
-			ast.Inspect(lit.Body, func(nd ast.Node) bool {
+			inspect(lit.Body, func(nd ast.Node) bool {
 				if as, ok := nd.(*ast.AssignStmt); ok && len(as.Lhs) == 2 && len(as.Rhs) == 1 {
 					if call, ok := ast.Unparen(as.Rhs[0]).(*ast.CallExpr); ok && r.P.CalleeFunc(info, call) == owns {
 						canVar, errVar = prog.IdentObj(info, as.Lhs[0]), prog.IdentObj(info, as.Lhs[1])
@@ -58,7 +58,7 @@ func init() {
 			// i.e. the value produced by CreateDeleteFunc
 			createDel := r.P.FuncObj("dkv/storage", "File.CreateDeleteFunc")
 			delFields := map[types.Object]bool{}
-			ast.Inspect(f.Decl.Body, func(nd ast.Node) bool {
+			inspect(f.Decl.Body, func(nd ast.Node) bool {
 				if kv, ok := nd.(*ast.KeyValueExpr); ok {
 					if call, ok := ast.Unparen(kv.Value).(*ast.CallExpr); ok && r.P.CalleeFunc(info, call) == createDel {
 						if id, ok := kv.Key.(*ast.Ident); ok {
@@ -168,7 +168,7 @@ func init() {
 			// the loop destroys the pending-removal list, not the live list
 			pendF := r.P.Field("dkv/recovery", "CheckpointList", "checkpointsPendingRemoval")
 			info := f.Pkg.TypesInfo
-			ast.Inspect(f.Decl.Body, func(nd ast.Node) bool {
+			inspect(f.Decl.Body, func(nd ast.Node) bool {
 				rs, ok := nd.(*ast.RangeStmt)
 				if !ok || !r.exprCalls(info, rs.Body, destroy) {
 					return true
@@ -183,10 +183,10 @@ func init() {
 			// every checkpoint document of the live list is serialised
 			ck := r.P.Field("dkv/recovery", "CheckpointList", "checkpoints")
 			okAll := false
-			ast.Inspect(f.Decl.Body, func(nd ast.Node) bool {
+			inspect(f.Decl.Body, func(nd ast.Node) bool {
 				if rs, ok := nd.(*ast.RangeStmt); ok && prog.SelField(info, rs.X) == ck {
 					okAll = true
-					ast.Inspect(rs.Body, func(m ast.Node) bool {
+					inspect(rs.Body, func(m ast.Node) bool {
 						if b, ok := m.(*ast.BranchStmt); ok {
 							r.Fail(f.Name()+":partial-doc", b.Pos(), nil, "the checkpoints file omits some retained checkpoints")
 						}
@@ -217,7 +217,7 @@ func init() {
 					continue
 				}
 				for _, file := range pkg.Syntax {
-					ast.Inspect(file, func(nd ast.Node) bool {
+					inspect(file, func(nd ast.Node) bool {
 						cl, ok := nd.(*ast.CompositeLit)
 						if !ok || pkg.TypesInfo.TypeOf(cl) != ckT.Type() {
 							return true
@@ -237,7 +237,7 @@ func init() {
 							// accepted: the field is assigned right after on the same variable
 							assigned := false
 							if sc := r.P.ScopeAt(cl.Pos()); sc != nil {
-								ast.Inspect(sc.Decl, func(m ast.Node) bool {
+								inspect(sc.Decl, func(m ast.Node) bool {
 									if as, ok := m.(*ast.AssignStmt); ok {
 										for _, l := range as.Lhs {
 											if prog.SelField(pkg.TypesInfo, l) == set {
@@ -292,7 +292,7 @@ func init() {
 			needs := r.P.FuncObj("workers/operator", "(*neighborPartition).NeedsTable")
 			// spawn loop and result loop both range over o.neighbors
 			var loops []*ast.RangeStmt
-			ast.Inspect(f.Decl.Body, func(nd ast.Node) bool {
+			inspect(f.Decl.Body, func(nd ast.Node) bool {
 				if rs, ok := nd.(*ast.RangeStmt); ok && prog.SelField(info, rs.X) == neighbors {
 					loops = append(loops, rs)
 				}
@@ -315,7 +315,7 @@ func init() {
 			// result loop
 			r.Site(collect.Pos(), "ExclusivelyOwnsTable: result loop")
 			var resVar, errAcc, flag types.Object
-			ast.Inspect(collect.Body, func(nd ast.Node) bool {
+			inspect(collect.Body, func(nd ast.Node) bool {
 				if as, ok := nd.(*ast.AssignStmt); ok && len(as.Lhs) == 1 && len(as.Rhs) == 1 {
 					if u, ok := ast.Unparen(as.Rhs[0]).(*ast.UnaryExpr); ok && u.Op == token.ARROW && as.Tok == token.DEFINE {
 						resVar = prog.IdentObj(info, as.Lhs[0])
@@ -373,7 +373,7 @@ func init() {
 					lhs := prog.IdentObj(c.Info, ev.Lhs[0])
 					if lhs == errAcc && ev.Node.Pos() > collect.Pos() && ev.Node.End() <= collect.End() {
 						keeps := false
-						ast.Inspect(ev.Rhs[0], func(m ast.Node) bool {
+						inspect(ev.Rhs[0], func(m ast.Node) bool {
 							if id, ok := m.(*ast.Ident); ok && c.Info.Uses[id] == errAcc {
 								keeps = true
 							}
@@ -416,7 +416,7 @@ func init() {
 						}
 					}
 					if lhs == errAcc && s.V[1] == pathsim.True {
-						ast.Inspect(ev.Rhs[0], func(m ast.Node) bool {
+						inspect(ev.Rhs[0], func(m ast.Node) bool {
 							if sel, ok := m.(*ast.SelectorExpr); ok && isResField(c, sel, "err") {
 								foldsErr = true
 							}
@@ -435,7 +435,7 @@ func init() {
 			}
 			// one receive per neighbour
 			recvs := 0
-			ast.Inspect(collect.Body, func(nd ast.Node) bool {
+			inspect(collect.Body, func(nd ast.Node) bool {
 				if u, ok := nd.(*ast.UnaryExpr); ok && u.Op == token.ARROW {
 					recvs++
 				}
@@ -447,7 +447,7 @@ func init() {
 			// the shortcut: own range contains the table's range
 			contains := r.P.FuncObj("partitioning", "KeyGroupRange.Contains")
 			okShort := false
-			ast.Inspect(f.Decl.Body, func(nd ast.Node) bool {
+			inspect(f.Decl.Body, func(nd ast.Node) bool {
 				if is, ok := nd.(*ast.IfStmt); ok && r.exprCalls(info, is.Cond, contains) {
 					if _, isNot := ast.Unparen(is.Cond).(*ast.UnaryExpr); !isNot {
 						okShort = true
@@ -481,7 +481,7 @@ func init() {
 			}
 			// the table range local in ExclusivelyOwnsTable
 			var tblRange types.Object
-			ast.Inspect(f.Decl.Body, func(nd ast.Node) bool {
+			inspect(f.Decl.Body, func(nd ast.Node) bool {
 				as, ok := nd.(*ast.AssignStmt)
 				if !ok || len(as.Lhs) != 1 || len(as.Rhs) != 1 {
 					return true
@@ -537,7 +537,7 @@ func init() {
 			opField := r.P.Field("workers/operator", "neighborPartition", "operator")
 			kgrT := r.P.TypeName("partitioning", "KeyGroupRange")
 			var ntRange types.Object
-			ast.Inspect(nt.Decl.Body, func(nd ast.Node) bool {
+			inspect(nt.Decl.Body, func(nd ast.Node) bool {
 				as, ok := nd.(*ast.AssignStmt)
 				if !ok || len(as.Lhs) != 1 || len(as.Rhs) != 1 {
 					return true
@@ -557,7 +557,7 @@ func init() {
 						continue
 					}
 					param := -1
-					ast.Inspect(kv.Value, func(m ast.Node) bool {
+					inspect(kv.Value, func(m ast.Node) bool {
 						if call, ok := m.(*ast.CallExpr); ok && r.P.CalleeFunc(ni, call) == kgFromBytes && len(call.Args) == 1 {
 							for _, pi := range []int{2, 3} {
 								if isKeyPrefix(nt, call.Args[0], pi) {
@@ -618,13 +618,13 @@ func init() {
 			npT := r.P.TypeName("workers/operator", "neighborPartition")
 			kgr := r.P.FuncObj("partitioning", "(*KeySpace).KeyGroupRanges")
 			var loop *ast.RangeStmt
-			ast.Inspect(f.Decl.Body, func(nd ast.Node) bool {
+			inspect(f.Decl.Body, func(nd ast.Node) bool {
 				rs, ok := nd.(*ast.RangeStmt)
 				if !ok || prog.SelField(info, rs.X) != opsF {
 					return true
 				}
 				has := false
-				ast.Inspect(rs.Body, func(m ast.Node) bool {
+				inspect(rs.Body, func(m ast.Node) bool {
 					if cl, ok := m.(*ast.CompositeLit); ok && info.TypeOf(cl) == npT.Type() {
 						has = true
 					}
@@ -646,7 +646,7 @@ func init() {
 			}
 			// own index: local defined by slices.IndexFunc(req.Operators, ...)
 			var own types.Object
-			ast.Inspect(f.Decl.Body, func(nd ast.Node) bool {
+			inspect(f.Decl.Body, func(nd ast.Node) bool {
 				if as, ok := nd.(*ast.AssignStmt); ok && len(as.Lhs) == 1 && len(as.Rhs) == 1 {
 					if c, ok := isCallToNamed(info, as.Rhs[0], "slices", "IndexFunc"); ok && len(c.Args) == 2 && prog.SelField(info, c.Args[0]) == opsF {
 						own = prog.IdentObj(info, as.Lhs[0])
@@ -654,7 +654,7 @@ func init() {
 				}
 				return true
 			})
-			ast.Inspect(loop.Body, func(m ast.Node) bool {
+			inspect(loop.Body, func(m ast.Node) bool {
 				switch x := m.(type) {
 				case *ast.FuncLit:
 					return false
@@ -700,7 +700,7 @@ func init() {
 								}
 							}
 						case "operator":
-							ast.Inspect(kv.Value, func(q ast.Node) bool {
+							inspect(kv.Value, func(q ast.Node) bool {
 								if id, ok := q.(*ast.Ident); ok && ov != nil && info.Uses[id] == ov {
 									okOp = true
 								}
@@ -726,7 +726,7 @@ func init() {
 			pendF := r.P.Field("dkv/recovery", "CheckpointList", "checkpointsPendingRemoval")
 			has := r.P.FuncObj("util/ds", "(*Set).Has")
 			var loop *ast.RangeStmt
-			ast.Inspect(f.Decl.Body, func(nd ast.Node) bool {
+			inspect(f.Decl.Body, func(nd ast.Node) bool {
 				if rs, ok := nd.(*ast.RangeStmt); ok && prog.SelField(info, rs.X) == ck {
 					loop = rs
 				}
@@ -739,7 +739,7 @@ func init() {
 			r.Site(loop.Pos(), "RetainOnly partition loop")
 			// simulate one iteration: atom Has(cp.ID); effects: append to next (keep) / append to pending (drop)
 			var nextVar types.Object
-			ast.Inspect(f.Decl.Body, func(nd ast.Node) bool {
+			inspect(f.Decl.Body, func(nd ast.Node) bool {
 				if as, ok := nd.(*ast.AssignStmt); ok && len(as.Lhs) == 1 && prog.SelField(info, as.Lhs[0]) == ck {
 					nextVar = prog.IdentObj(info, as.Rhs[0])
 				}
@@ -829,18 +829,18 @@ func init() {
 			ii := it.Pkg.TypesInfo
 			cpInc := r.P.FuncObj("dkv/recovery", "(*Checkpoint).IncludesTable")
 			okAny := false
-			ast.Inspect(it.Decl.Body, func(nd ast.Node) bool {
-				if rs, ok := nd.(*ast.RangeStmt); ok && prog.SelField(ii, rs.X) == ck && r.exprCalls(ii, rs.Body, cpInc) {
-					okAny = true
-					ast.Inspect(rs.Body, func(m ast.Node) bool {
-						if b, ok := m.(*ast.BranchStmt); ok {
-							r.Fail(it.Name()+":partial", b.Pos(), nil, "IncludesTable skips some retained checkpoints")
-						}
-						return true
-					})
+			for _, lp := range fullLoopsOver(ii, it.Decl.Body, func(e ast.Expr) bool { return prog.SelField(ii, e) == ck }) {
+				if !r.exprCalls(ii, lp.Body, cpInc) {
+					continue
 				}
-				return true
-			})
+				okAny = true
+				inspect(lp.Body, func(m ast.Node) bool {
+					if b, ok := m.(*ast.BranchStmt); ok {
+						r.Fail(it.Name()+":partial", b.Pos(), nil, "IncludesTable skips some retained checkpoints")
+					}
+					return true
+				})
+			}
 			// polarity: `true` is returned exactly on a path where some checkpoint's IncludesTable held,
 			// and the function can return true (an "always false" answer lets neighbours delete shared files)
 			returnsTrue := false
